@@ -39,17 +39,37 @@ Theorem C10_result_own_on_used_node :
 Proof. exact result_own_bound. Qed.
 Print Assumptions C10_result_own_on_used_node.
 
-(* The same for the start / resume commands through which the harness drives
+(* Histories with failures: any set of queries whose binding fails (a read error
+   while the schema of their chunk files is inferred: the shared binding and its
+   bookkeeping stay as they were) and query futures dropped at any point, in any
+   interleaving with the steps of the other queries, from any previously bound
+   table -- every query that completes scanned its own chunk set.  In
+   particular a retry after a failed binding is not evaluated against the
+   previous query's chunks. *)
+Theorem C10_result_own_with_failed_and_dropped_queries :
+  forall (faults : list qid) (sets : list (qid * chunkset)) (t : chunkset) (ids : list qid) (evs : list ev) (i : qid) (c : chunkset),
+    result (run_ev faults proto_fixed sets evs (init_bound t ids)) i = Some c -> c = sel sets i.
+Proof. exact result_own_faulty. Qed.
+Print Assumptions C10_result_own_with_failed_and_dropped_queries.
+
+(* ... and the bookkeeping of bound paths always equals the bound table. *)
+Theorem C10_bookkeeping_matches_binding :
+  forall (faults : list qid) (sets : list (qid * chunkset)) (t : chunkset) (ids : list qid) (evs : list ev),
+    tbl (run_ev faults proto_fixed sets evs (init_bound t ids)) = paths (run_ev faults proto_fixed sets evs (init_bound t ids)).
+Proof. exact paths_match_table. Qed.
+Print Assumptions C10_bookkeeping_matches_binding.
+
+(* The same for the start / resume / cancel commands through which the harness drives
    the real query node (they are compositions of the same steps). *)
 Theorem C10_commands_result_own :
   forall (sets : list (qid * chunkset)) (ids : list qid) (cs : list cmd) (i : qid) (c : chunkset),
-    result (run_cmds proto_fixed sets cs [] (init ids)) i = Some c -> c = sel sets i.
+    result (run_cmds [] proto_fixed sets cs [] (init ids)) i = Some c -> c = sel sets i.
 Proof. exact cmds_result_own. Qed.
 Print Assumptions C10_commands_result_own.
 
 Theorem C10_commands_result_own_on_used_node :
-  forall (sets : list (qid * chunkset)) (t : chunkset) (ids : list qid) (cs : list cmd) (i : qid) (c : chunkset),
-    result (run_cmds proto_fixed sets cs [] (init_bound t ids)) i = Some c -> c = sel sets i.
+  forall (faults : list qid) (sets : list (qid * chunkset)) (t : chunkset) (ids : list qid) (cs : list cmd) (i : qid) (c : chunkset),
+    result (run_cmds faults proto_fixed sets cs [] (init_bound t ids)) i = Some c -> c = sel sets i.
 Proof. exact cmds_result_own_bound. Qed.
 Print Assumptions C10_commands_result_own_on_used_node.
 
